@@ -69,7 +69,8 @@ class Driver:
     def _points(self, pts):
         from datetime import datetime, timezone
         self._clock0 = datetime.now(timezone.utc)
-        return [real_point(self.tf, p) if p is not None else "not a point" for p in pts]
+        share = {}
+        return [real_point(self.tf, p, share) if p is not None else "not a point" for p in pts]
 
     def _do(self, o):
         tf, db = self.tf, self.db
